@@ -91,10 +91,93 @@ def extra(report, env):
             want = exp if exp is not None else base
             if (r['result'] != want or (want is not None and type(r['result']) is not type(want))) and len(fails) < 5:
                 fails.append({'formula': text, 'detail': 'listener %s set %r: value %r, expected %r' % (ev, seq, r, want)})
-    bounded(report, 'C10.events', '7 columns x 5 rows x 4 $-patterns, 18 ranges (all corner orders), 4 ordering formulas, 9 setter sequences x 4 events', cases, fails)
+    # reference walk: seeded formulas in which the same variable / cell / range / function occurs several times; every occurrence
+    # raises its own event (post-order, left to right) and takes the value its own setter was given
+    for _ in range(300 if env['tier'] == 'quick' else 5000):
+        tree = gen_refs(rng, rng.randint(1, 5))
+        text = render_refs(tree)
+        bad = walk_case(tree, text)
+        cases += 1
+        if bad and len(fails) < 5:
+            fails.append({'formula': text, 'walk': tree, 'detail': bad})
+    bounded(report, 'C10.events', '7 columns x 5 rows x 4 $-patterns, 18 ranges (all corner orders), 4 ordering formulas, 9 setter sequences x 4 events, seeded formulas with '
+            'repeated references (<= 6 atoms from 2 variables, 2 cells, 1 range, SUM / MAX calls) against a reference walk: one event per occurrence, '
+            'each occurrence valued by its own setter', cases, fails)
+
+
+def gen_refs(rng, n):
+    if n <= 0 or rng.random() < 0.25:
+        return rng.choice([['var', 'x'], ['var', 'x'], ['var', 'y'], ['cell', 'A1'], ['cell', 'A1'], ['cell', 'B2'], ['range', 'A1', 'B2'], ['num', 3]])
+    k = rng.randint(0, n - 1)
+    if rng.random() < 0.5:
+        return ['fn', rng.choice(['SUM', 'MAX']), gen_refs(rng, k), gen_refs(rng, n - 1 - k)]
+    return ['add', gen_refs(rng, k), gen_refs(rng, n - 1 - k)]
+
+
+def render_refs(t):
+    if t[0] in ('var', 'cell'):
+        return t[1]
+    if t[0] == 'num':
+        return str(t[1])
+    if t[0] == 'range':
+        return '%s:%s' % (t[1], t[2])
+    if t[0] == 'fn':
+        return '%s(%s,%s)' % (t[1], render_refs(t[2]), render_refs(t[3]))
+    return '(%s+%s)' % (render_refs(t[1]), render_refs(t[2]))
+
+
+def walk_case(tree, text):
+    """ evaluate text with listeners that hand the n-th event the value n (ranges: [n, n]); compare events and value with the walk """
+    from pyvc import e2e
+    p = e2e.new_parser()
+    log = []
+
+    def give(kind, key, setter):
+        log.append((kind, key))
+        n = len(log)
+        setter([n, n] if kind == 'range' else n)
+    p.on('callVariable', lambda name, s: give('var', name, s))
+    p.on('callCellValue', lambda cell, s: give('cell', cell.label, s))
+    p.on('callRangeValue', lambda a, b, s: give('range', a.label + ':' + b.label, s))
+    p.on('callFunction', lambda name, args, s: log.append(('fn', name)))
+    exp = []
+
+    def flat(v):
+        return [x for y in v for x in flat(y)] if isinstance(v, list) else [v]
+
+    def ev(t):
+        if t[0] == 'num':
+            return t[1]
+        if t[0] in ('var', 'cell'):
+            exp.append((t[0], t[1]))
+            return len(exp)
+        if t[0] == 'range':
+            exp.append(('range', t[1] + ':' + t[2]))
+            return [len(exp), len(exp)]
+        if t[0] == 'fn':
+            a, b = ev(t[2]), ev(t[3])
+            exp.append(('fn', t[1]))
+            return (sum if t[1] == 'SUM' else max)(flat([a, b]))
+        a, b = ev(t[1]), ev(t[2])
+        if isinstance(a, list) or isinstance(b, list):
+            if isinstance(a, list) and isinstance(b, list):
+                return [x + y for x, y in zip(a, b)]
+            return [x + b for x in a] if isinstance(a, list) else [a + y for y in b]
+        return a + b
+    want = ev(tree)
+    r = p.parse(text)
+    if log != exp:
+        return 'events %r, expected one per occurrence in evaluation order: %r' % (log, exp)
+    if r != {'result': want, 'error': None}:
+        return 'value %r, expected %r (the n-th event was given the value n)' % (r, want)
+    return None
 
 
 def replay(rp):
+    if rp.get('walk'):
+        bad = walk_case(rp['walk'], rp['formula'])
+        print('parse(%r): %s' % (rp['formula'], bad or 'events and value as stated'))
+        return 1 if bad else 0
     from pyvc import e2e
     print('parse(%r): %s' % (rp['formula'], rp['detail']))
     return 1
